@@ -257,10 +257,12 @@ func (c *Ctx) pfbFraming(info *types.Info) {
 	var writes []string
 	cur := func() string { return "<" + strings.Join(content, ",") + ">" }
 	isBuf := func(v sv) bool { return v.k == svAddr && strings.HasPrefix(v.s, "cell") }
-	ev.noInline = func(f *ssa.Function) bool { return f.Name() != "Write" || f.Signature.Recv() == nil || !strings.Contains(f.String(), "Font") }
+	ev.noInline = func(f *ssa.Function) bool {
+		return f.Name() != "Write" || f.Signature.Recv() == nil || !strings.Contains(f.String(), "Font")
+	}
 	ev.noInline = func(f *ssa.Function) bool {
 		// only unexported helpers without receiver are evaluated in place (e.g. a segment writer)
-		return f.Signature.Recv() != nil || f.Object() == nil || f.Object().Exported() || f.Name() == "newEExecWriter"
+		return f.Signature.Recv() != nil || f.Object() == nil || f.Object().Exported() || c.isFn(f, "type1", "", "newEExecWriter")
 	}
 	ev.load = func(ld *ssa.UnOp, addr sv) (sv, bool) {
 		if strings.HasSuffix(addr.s, ".Format") {
